@@ -270,6 +270,12 @@ func (e *Engine) opaqueCall(st *State, ci *callInfo) []multiOut {
 		rs = append(rs, v)
 	}
 	ev.Results = rs
+	// allocations handed to opaque code: what it wrote into them is unknown
+	for _, a := range ci.args {
+		if a != nil && a.Kind == KAlloc {
+			a.Escaped = true
+		}
+	}
 	// pointers to locals handed to opaque code: their contents become unknown
 	for _, a := range ci.args {
 		if a != nil && a.Kind == KAddr && a.Obj != nil {
